@@ -76,6 +76,16 @@ Theorem C20_coexist :
 Proof. exact store_chunk_frame. Qed.
 Print Assumptions C20_coexist.
 
+(* ... and the same for RemoveChunk (for Prune and Verify see C16_prune_safe / C16_verify_exact). *)
+Theorem C20_coexist_remove :
+  forall (H : bytes -> id) (zdecomp : bytes -> option bytes) st j s s' st2 i,
+  remove_chunk st j s = RmOk s' ->
+  st_base st2 = st_base st -> wf_id i -> wf_id j ->
+  (i <> j \/ st_unc st2 <> st_unc st) ->
+  get_chunk H zdecomp st2 i s' = get_chunk H zdecomp st2 i s /\ has_chunk st2 i s' = has_chunk st2 i s.
+Proof. exact remove_chunk_frame. Qed.
+Print Assumptions C20_coexist_remove.
+
 (* ---------- non-vacuity ---------- *)
 Definition ex_H (b : bytes) : id := fold_right N.add 0%N b.
 Definition ex_zcomp (b : bytes) : option bytes := Some (40 :: 181 :: b)%N.
